@@ -280,6 +280,9 @@ func (ex *Exec) newObject(st *State, t types.Type, init *Value) *Value {
 		init = ex.zero(t)
 	}
 	ex.store(st, loc{root: t, ref: ref, elemT: t}, init)
+	if heapClass(typeKey(t)+"|0") == clsForeign {
+		ex.ownedForeign[ref.id] = &ownedObj{ref: ref, t: t}
+	}
 	return p
 }
 
@@ -300,6 +303,13 @@ func (ex *Exec) execInstr(fr *Frame, st *State, in ssa.Instruction) {
 	case *ssa.Store:
 		p := ex.eval(fr, st, in.Addr)
 		v := ex.eval(fr, st, in.Val)
+		if len(v.C) > 0 {
+			if _, owned := ex.ownedForeign[v.C[0].id]; owned {
+				if _, isPtr := v.T.Underlying().(*types.Pointer); isPtr && (p.P == nil || p.P.Local == nil) {
+					ex.sharedRefs[v.C[0].id] = true // stored into the heap
+				}
+			}
+		}
 		l := ex.resolve(p)
 		ex.nilCheck(st, p, in, "store")
 		if len(l.path) == 0 && l.local != nil {
@@ -403,6 +413,11 @@ func (ex *Exec) execInstr(fr *Frame, st *State, in ssa.Instruction) {
 
 	case *ssa.MakeInterface:
 		x := ex.eval(fr, st, in.X)
+		if len(x.C) > 0 {
+			if _, owned := ex.ownedForeign[x.C[0].id]; owned {
+				ex.sharedRefs[x.C[0].id] = true // whoever receives the interface may keep it
+			}
+		}
 		fr.regs[in] = ex.makeInterface(x, in.Type())
 
 	case *ssa.ChangeInterface:
@@ -463,6 +478,7 @@ func (ex *Exec) execInstr(fr *Frame, st *State, in ssa.Instruction) {
 		k := ex.eval(fr, st, in.Key)
 		v := ex.eval(fr, st, in.Value)
 		ex.mapAccessObligations(fr, st, in)
+		ex.atObligations(fr, st, "mapupdate", in, map[string]*Value{"$0": m, "$1": k, "$2": v})
 		ex.oblige(st, "nilmap", ex.siteWhat(in), tb.Not(tb.Eq(m.C[0], ex.refLit(0))), in, "assignment to entry in nil map")
 		ex.mapStore(st, m, k, v)
 
